@@ -9,6 +9,7 @@ func livenessAll(w *World, r *Report, pfx string) {
 	checkReplyProtocol(w, r, pfx)
 	checkStateReply(w, r, pfx)
 	checkProducerClose(w, r, pfx)
+	checkIteratorConsumers(w, r, pfx)
 	checkEndOnExit(w, r, pfx)
 	checkOneFrame(w, r, pfx)
 	checkNoRequestWhileIterating(w, r, pfx)
